@@ -212,6 +212,55 @@ def uf_axioms(exprs):
     return out
 
 
+CROSS = {"checked": 0, "agree": 0, "cvc5_unknown": 0, "disagree": []}
+
+
+def cvc5_check(smt2_text, timeout_ms=20_000):
+    """re-decide a query exported by z3 with cvc5 (independent solver); returns 'sat' / 'unsat' / 'unknown' / 'error: ...'"""
+    try:
+        import cvc5
+        slv = cvc5.Solver()
+        slv.setOption("tlimit-per", str(timeout_ms))
+        slv.setLogic("ALL")
+        p = cvc5.InputParser(slv)
+        p.setStringInput(cvc5.InputLanguage.SMT_LIB_2_6, smt2_text, "query")
+        sm = p.getSymbolManager()
+        out = "unknown"
+        while True:
+            c = p.nextCommand()
+            if c.isNull():
+                break
+            r = c.invoke(slv, sm)
+            r = str(r).strip() if r is not None else ""
+            if r in ("sat", "unsat", "unknown"):
+                out = r
+            elif "error" in r.lower():
+                return "error: " + r[:200]
+        return out
+    except Exception as e:      # noqa: BLE001
+        return f"error: {type(e).__name__}: {str(e)[:200]}"
+
+
+def _cross_check(solver, z3_result):
+    import os
+    rate = int(os.environ.get("GBVERIF_CVC5_EVERY", "0"))
+    if rate <= 0:
+        return
+    if "seen" not in CROSS:
+        CROSS["seen"] = os.getpid() % rate          # stagger the sampled positions across worker processes
+    CROSS["seen"] += 1
+    if CROSS["seen"] % rate:
+        return
+    r = cvc5_check(solver.to_smt2())
+    CROSS["checked"] += 1
+    if r == z3_result:
+        CROSS["agree"] += 1
+    elif r == "unknown" or r.startswith("error"):
+        CROSS["cvc5_unknown"] += 1
+    else:
+        CROSS["disagree"].append({"z3": z3_result, "cvc5": r})
+
+
 def decide(inputs, bads, rt=None, extra_pre=(), witnesses=(), check_obligations=True, timeout_ms=None,
            prefer_small=True):
     """bads: list of (label, condition-that-means-violation).  Returns Decision."""
@@ -254,6 +303,8 @@ def decide(inputs, bads, rt=None, extra_pre=(), witnesses=(), check_obligations=
         s.add(z3.Or(*[zb(b) for _, b in live]))
         d.n_queries += 1
         r = str(s.check())
+        if r in ("sat", "unsat"):
+            _cross_check(s, r)
         if r == "sat":
             m = s.model()
             if prefer_small:
